@@ -7,7 +7,7 @@
     PostgreSQL planners).  *)
 From Coq Require Import List NArith ZArith Bool.
 From Atlas Require Import Base.Bytes Qual.Builder Qual.BuilderProofs Qual.Scope Qual.ScopeProofs
-  Qual.RefSkeleton Qual.RefSkeletonProofs.
+  Qual.RefSkeleton Qual.RefSkeletonProofs Qual.Lexq Qual.LexqProofs Qual.Replay Qual.ReplayProofs Qual.ChainEnd.
 Import ListNotations.
 Open Scope N_scope.
 
@@ -89,6 +89,101 @@ Theorem C16_builder_pg :
   schemaPrefix quoteGo None ns = schemaPrefix quoteGo (Some (VName ns)) None.
 Proof. exact pg_ident_cases. Qed.
 
+(** * 1g-1k (round 3). The qualifier is ONE quoted identifier, as the server reads it
+
+    Full statement: for EVERY qualifier and every object name, what a qualifying call writes
+    is read by the server (the dialect's rule for quoted identifiers: a quote character
+    inside is written twice, the identifier closes at the first single one; Qual/Lexq.v
+    [read_ident] / [lex_chain]) as exactly the chain [q; name; ...]: the requested qualifier
+    stands as one quoted identifier in front of the reference.
+
+    It is FALSE of the faithful model: [Builder.Ident] writes the name raw, a quote
+    character inside is not doubled (witness: qualifier  a, double quote, b  -- reproduced on the Go code by
+    stage [plan], class ident-quote-unescaped, recorded finding): *)
+Theorem C16_one_identifier_refuted :
+  exists q t, lex_chain 34 34 (render_chain 34 34 [q; t] ++ [SP]) <> Some ([q; t], [SP]) /\
+              lex_chain 34 34 (quote_chain 34 34 [q; t] ++ [SP]) = Some ([q; t], [SP]).
+Proof. exists w_q, w_t. exact raw_quote_refuted. Qed.
+
+(** What does hold.  (i) exactly: ONE raw identifier reads back as its name iff the name
+    is free of the closing quote character; *)
+Theorem C16_one_identifier_exact :
+  forall qc n rest, not_starts qc rest ->
+  (read_ident qc (n ++ qc :: rest) = Some (n, rest) <-> quote_free qc n).
+Proof. exact read_ident_raw_iff. Qed.
+
+(** (ii) every chain of quote-free names, followed by any text that does not continue it,
+    reads back as exactly that chain (with 1a: the chain of a qualifying call under qualifier
+    [q] is [q :: names]); *)
+Theorem C16_one_identifier_except :
+  forall qo qc l post,
+  qc <> DOT -> l <> [] -> Forall (quote_free qc) l -> chain_ends qo qc post ->
+  lex_chain qo qc (render_chain qo qc l ++ post) = Some (l, post).
+Proof. exact render_chain_reads_back. Qed.
+
+(** (iii) end to end for one qualifying call on ANY builder state: under qualifier [q],
+    [mayQualify] (Table / TableResource / SchemaResource / ...) appends a text that reads as
+    exactly [q :: top :: children] -- whatever schema the object itself carries; *)
+Theorem C16_one_identifier_call :
+  forall b s top children q,
+  bschema b = Some q -> nonempty q -> nonempty top -> Forall nonempty children ->
+  qc b <> DOT -> qc b <> SP ->
+  Forall (quote_free (qc b)) (q :: top :: children) ->
+  exists pre, out (mayQualify b s top children) = out b ++ pre /\
+    lex_chain (qo b) (qc b) pre = Some (q :: top :: children, [SP]).
+Proof. exact mayQualify_reads_back. Qed.
+
+(** (iii') ... and for a qualifying call ANYWHERE in a call sequence (1a + 1i): whatever is
+    called later -- with non-empty names in the later qualifying calls, the caveat of 1a -- the
+    byte after the chain is a separator (' ', ',', newline, ')', single quote, '('), never a
+    '.', so the server reads exactly the emitted chain: under qualifier [q] it is [q :: names]
+    (1b), the requested qualifier as ONE quoted identifier in front of the reference. *)
+Theorem C16_one_identifier_sequence :
+  forall (b : builder) (ops1 : list op) (o : op) (ops2 : list op) (l : list bytes),
+  let b1 := run b ops1 in
+  panicked b1 = false ->
+  emitted_chain (bschema b1) o = Some l ->
+  wf_op o -> Forall wf_op ops2 ->
+  ~ sepA (qc b1) -> qc b1 <> DOT ->
+  Forall (quote_free (qc b1)) l ->
+  exists post,
+    out (run b (ops1 ++ o :: ops2)) = out b1 ++ render_chain (qo b1) (qc b1) l ++ post /\
+    lex_chain (qo b1) (qc b1) (render_chain (qo b1) (qc b1) l ++ post) = Some (l, post).
+Proof. exact builder_reads_back. Qed.
+
+(** (iv) the specification is satisfiable: the spelling with doubled quote characters
+    reads back for EVERY name (what a repaired [Ident] would write). *)
+Theorem C16_quoted_chain_reads_back :
+  forall qo qc l post,
+  qc <> DOT -> l <> [] -> chain_ends qo qc post ->
+  lex_chain qo qc (quote_chain qo qc l ++ post) = Some (l, post).
+Proof. exact quote_chain_reads_back. Qed.
+
+(** 1l. One plan, one namespace (PostgreSQL).  Full statement: typeIdent / schemaPrefix
+    ([%q] = strconv.Quote) and Builder.Table write, for the same qualifier, texts that the
+    server reads as the SAME identifier.  False for a qualifier with a backslash or a double
+    quote (strconv.Quote escapes with a backslash, which PostgreSQL reads literally): *)
+Theorem C16_pg_same_namespace_refuted :
+  exists q t,
+  quote_free DQ q /\
+  lex_chain DQ DQ (render_chain DQ DQ [q; t] ++ [SP]) = Some ([q; t], [SP]) /\
+  exists q', q' <> q /\
+  lex_chain DQ DQ (typeIdent strconvQuote (Some q) None t ++ [SP]) = Some ([q'; t], [SP]).
+Proof.
+  exists w_bs, w_t. destruct pg_two_namespaces as (A & B & C).
+  split; [exact A|]. split; [exact B|].
+  exists [97; 92; 92; 98]. split; [discriminate|exact C].
+Qed.
+
+(** it holds for the names strconv.Quote copies unchanged (printable ASCII but the double
+    quote and the backslash): both spellings are byte-identical and read as [q; name]. *)
+Theorem C16_pg_same_namespace_except :
+  forall q ns name, q <> [] -> plain q -> plain name ->
+  typeIdent strconvQuote (Some q) ns name = render_chain DQ DQ [q; name] /\
+  schemaPrefix strconvQuote (Some q) ns = render_ident DQ DQ q ++ [DOT] /\
+  lex_chain DQ DQ (typeIdent strconvQuote (Some q) ns name ++ [SP]) = Some ([q; name], [SP]).
+Proof. exact pg_same_namespace. Qed.
+
 (** * 2. The planners' statement forms (reference skeleton)
 
     Full statement: for EVERY change set the MySQL / PostgreSQL planners accept, every
@@ -164,12 +259,63 @@ Theorem C16_scope_no_panic :
   forall q mode cs, no_nil_schema cs -> CheckChangesScope q mode cs <> SPanic.
 Proof. intros q mode cs H. exact (loop_no_panic q mode cs H []). Qed.
 
+(** * 4 (round 3). Plans made from a replayed history: [migrate.Planner.plan], schema scope
+
+    Full statement: for every name of the dev database's schema and of the desired schema,
+    every history and every next desired state (all in ONE schema), the schema-scoped plan
+    requested with a qualifier is produced -- CheckChangesScope has no reason to see two schemas.
+
+    It is FALSE of the faithful model (Qual/Replay.v): Planner.plan renames a shallow copy of
+    the replayed schema object, the replayed tables keep pointing to the original, which
+    carries the dev database's name; a DropTable next to an Add/ModifyTable names two schemas.
+    Witness: dev schema "dev", desired schema "app", history [t1, t2], next state [t2, t3]
+    (reproduced on the Go code by stage [replay], class replay-plan-rejected-two-schemas,
+    recorded finding): *)
+Theorem C16_replay_refuted :
+  exists modified dev user cur des,
+  dev <> [] /\ user <> [] /\
+  Planner_plan modified false (Some []) 0 dev user [] cur des = PRejected (EMulti 2).
+Proof.
+  exists never, n_dev, n_app, [t1; t2], [t2; t3].
+  split; [discriminate|]. split; [discriminate|]. exact (proj1 replay_witness).
+Qed.
+
+(** What does hold.  (i) the code's exact condition: the plan is rejected iff the two names
+    differ, a table is dropped and a table is added or modified -- for every table-diff
+    function [modified], qualifier, mode, object changes and table lists; *)
+Theorem C16_replay_code :
+  forall modified q mode dev user objs cur des,
+  dev <> [] -> user <> [] ->
+  let cs := schema_diff modified dev user objs cur des in
+  ((exists r, Planner_plan modified false (Some q) mode dev user objs cur des = PRejected r) <->
+   (dev <> user /\ existsb is_drop cs = true /\ existsb is_addmod cs = true)).
+Proof. exact planner_rejects_iff. Qed.
+
+(** (ii) with the replayed schema object itself renamed (notes/fixes/C16-planner-replay-rename.diff)
+    the full statement holds. *)
+Theorem C16_replay_repaired :
+  forall modified q mode dev user objs cur des,
+  user <> [] ->
+  forall r, Planner_plan modified true (Some q) mode dev user objs cur des <> PRejected r.
+Proof. exact planner_deep_never_rejects. Qed.
+
 Print Assumptions C16_builder.
 Print Assumptions C16_builder_chain.
 Print Assumptions C16_builder_schema_kept.
 Print Assumptions C16_builder_requalify.
 Print Assumptions C16_builder_agnostic.
 Print Assumptions C16_builder_pg.
+Print Assumptions C16_one_identifier_refuted.
+Print Assumptions C16_one_identifier_exact.
+Print Assumptions C16_one_identifier_except.
+Print Assumptions C16_one_identifier_call.
+Print Assumptions C16_one_identifier_sequence.
+Print Assumptions C16_quoted_chain_reads_back.
+Print Assumptions C16_pg_same_namespace_refuted.
+Print Assumptions C16_pg_same_namespace_except.
+Print Assumptions C16_replay_refuted.
+Print Assumptions C16_replay_code.
+Print Assumptions C16_replay_repaired.
 Print Assumptions C16_skeleton_partial.
 Print Assumptions C16_skeleton_no_bare_reference.
 Print Assumptions C16_scope_sound.
@@ -278,3 +424,58 @@ Example ex_skeleton_modify :
       (false, h_alter_table, [[t_]; [e1]; [[118]]]); (true, h_alter_table, [[t_]; [[117]]]);
       (false, h_comment_on, [[t_; c_]]); (true, h_comment_on, [[t_; c_]]) ].
 Proof. vm_compute. reflexivity. Qed.
+
+(* round 3 *)
+(* C16_one_identifier_except / _call: qualifier acme.v2 (a dot inside), table <my t>, MySQL quotes *)
+Definition acme_v2 : bytes := [97; 99; 109; 101; 46; 118; 50].
+Definition my_t : bytes := [109; 121; 32; 116].
+Example ex_one_identifier :
+  let b := new_builder 96 96 (Some acme_v2) [] in
+  out (Table b (mkObj (Some m_) my_t)) = render_chain 96 96 [acme_v2; my_t] ++ [SP] /\
+  lex_chain 96 96 (out (Table b (mkObj (Some m_) my_t))) = Some ([acme_v2; my_t], [SP]).
+Proof. split; vm_compute; reflexivity. Qed.
+
+(* C16_one_identifier_exact: both directions are inhabited *)
+Example ex_one_identifier_exact :
+  read_ident 34 ([97; 46; 98] ++ 34 :: [SP]) = Some ([97; 46; 98], [SP]) /\
+  read_ident 34 ([97; 34; 98] ++ 34 :: [SP]) = Some ([97], [98; 34; SP]).
+Proof. split; vm_compute; reflexivity. Qed.
+
+(* C16_quoted_chain_reads_back: the witness of the refutation, spelled correctly *)
+Example ex_quoted_chain :
+  quote_chain 34 34 [w_q; w_t] = [34; 97; 34; 34; 98; 34; 46; 34; 116; 34].
+Proof. vm_compute. reflexivity. Qed.
+
+(* C16_pg_same_namespace_*: a plain qualifier with a dot and a space; the backslash witness *)
+Example ex_pg_same_namespace :
+  plain [97; 46; 98; 32; 99] /\
+  typeIdent strconvQuote (Some [97; 46; 98; 32; 99]) (Some m_) t_ = [34; 97; 46; 98; 32; 99; 34; 46; 34; 116; 34] /\
+  typeIdent strconvQuote (Some w_bs) None w_t = [34; 97; 92; 92; 98; 34; 46; 34; 116; 34].
+Proof. repeat split; vm_compute; reflexivity. Qed.
+
+(* C16_replay_*: the witness is rejected by the code as it is, planned by the repaired code, and
+   planned by the code as it is when the dev schema carries the desired name; a lone DROP TABLE
+   is planned (right-hand side of C16_replay_code false) *)
+Example ex_replay :
+  Planner_plan never false (Some []) 0 n_dev n_app [] [t1; t2] [t2; t3] = PRejected (EMulti 2) /\
+  Planner_plan never true (Some []) 0 n_dev n_app [] [t1; t2] [t2; t3] = PPlanned /\
+  Planner_plan never false (Some []) 0 n_app n_app [] [t1; t2] [t2; t3] = PPlanned /\
+  Planner_plan never false (Some []) 0 n_dev n_app [] [t1; t2] [t2] = PPlanned /\
+  Planner_plan never false (Some []) 0 n_dev n_app [] [t1; t2] [t1; t2] = PNoPlan.
+Proof. repeat split; vm_compute; reflexivity. Qed.
+
+(* C16_one_identifier_sequence: ALTER TABLE <t> ( <t.c> ) , -- the chain of the first call is
+   followed by " (" and is read as [acme.v2; my t]; the second one by ")" after the comma rewrite *)
+Example ex_one_identifier_sequence :
+  let b := new_builder 34 34 (Some acme_v2) [] in
+  let ops1 := [OP [[65]]] in
+  let o := OTable (mkObj (Some m_) my_t) in
+  let ops2 := [OWrapOpen; OTableResource (mkObj (Some m_) my_t) c_; OWrapClose; OComma] in
+  lex_chain 34 34 (skipn (length (out (run b ops1))) (out (run b (ops1 ++ o :: ops2)))) =
+    Some ([acme_v2; my_t], [SP; LP] ++ render_chain 34 34 [acme_v2; my_t; c_] ++ [RP; CM; SP]) /\
+  Forall wf_op ops2 /\ ~ sepA 34.
+Proof.
+  split; [vm_compute; reflexivity|]. split.
+  - repeat constructor; discriminate.
+  - unfold sepA, SP, CM, NLc, RP, SQ, LP. intros [H|[H|[H|[H|[H|H]]]]]; discriminate.
+Qed.
